@@ -50,6 +50,7 @@ class Gen:
         self.in_loop = 0
         self.in_func = 0
         self.stats = {}
+        self.protected = set()      # loop counters: never chosen as a fresh name while their loop body is generated
 
     def stat(self, k):
         self.stats[k] = self.stats.get(k, 0) + 1
@@ -60,8 +61,10 @@ class Gen:
     # ---- names
     def fresh_name(self):
         pool = self.SIMPLE + self.COMMON + self.PROPER
-        cands = [i for i, n in enumerate(pool) if n not in self.vars and n not in self.funcs]
-        return pool[self.r.choice(cands)] if cands else pool[self.r.randrange(len(pool))]
+        cands = [i for i, n in enumerate(pool) if n not in self.vars and n not in self.funcs and n not in self.protected]
+        if not cands:
+            cands = [i for i, n in enumerate(pool) if n not in self.protected] or list(range(len(pool)))
+        return pool[self.r.choice(cands)]
 
     def var_of(self, kinds):
         c = [n for n, k in self.vars.items() if k in kinds or k == "any"]
@@ -172,8 +175,13 @@ class Gen:
         b = self.primary(kind, depth + 1)
         s = f"{a} {op} {b}"
         if self.r.random() < self.w("lists", 0.12):
-            for _ in range(self.r.randint(1, 2)):
-                s += self.r.choice([", ", ", and "]) + self.primary(kind, depth + 1)
+            low = c < 0.5          # + / - list: later items may be chains of * and /
+            for _ in range(self.r.randint(1, 3)):
+                item = self.primary(kind, depth + 1)
+                if low and self.r.random() < 0.5:
+                    for _ in range(self.r.randint(1, 2)):
+                        item += " " + self.sp.choice(self.r.choice([MUL, DIV])) + " " + self.primary(kind, depth + 1)
+                s += self.sp.choice([", ", ", and "]) + item
         return s
 
     def str_expr(self):
@@ -409,6 +417,7 @@ class Gen:
             head = f"until {ctr} is as great as {n}"
         saved = dict(self.vars)
         del self.vars[ctr]          # the body never touches the counter: loops terminate
+        self.protected.add(ctr)
         self.in_loop += 1
         body = [f"build {ctr} up"]
         if self.r.random() < 0.4:
@@ -416,6 +425,7 @@ class Gen:
             body += [f"if {self.cond()}", kw, ""]
         body += self.block(self.r.randint(1, 3))
         self.in_loop -= 1
+        self.protected.discard(ctr)
         self.vars = dict(saved)
         return pre + [head] + body + [""]
 
